@@ -220,9 +220,12 @@ func aeadPart(c *vf.Ctx) {
 				return
 			}
 			sealed := aead.Seal(nil, nonce, pt, ad)
-			if !bytes.Equal(sealed, aeadref.Seal(key, nonce, pt, ad)) {
-				c.Violation(tgt+": Seal output differs from the RFC 8439 model (see C01)", map[string]any{"len": u.n, "adLen": u.an})
-				return
+			// whether Seal is RFC 8439 is property C01's business; here it is only recorded, and the
+			// faults are applied to whatever this Seal produced ("everything it did not produce")
+			if bytes.Equal(sealed, aeadref.Seal(key, nonce, pt, ad)) {
+				c.Outcome(tgt + ": sealed output equals the RFC 8439 model")
+			} else {
+				c.Outcome(tgt + ": sealed output DIFFERS from the RFC 8439 model (see C01)")
 			}
 			// sanity: the genuine message opens (otherwise "rejects everything" is vacuous)
 			if back, err := aead.Open(nil, nonce, sealed, ad); err != nil || !bytes.Equal(back, pt) {
